@@ -641,8 +641,24 @@ package grpctunnel
 //@   at call Handler#2
 //@     assert[C08,C17] @stream id(arg1) == st
 //@     assert[C04,C07] @watched  count("go:(*tunnelServerStream).serveStream$2") == 1
+//@   ghost which int = 0
+//@   ghost herr error = nil
+//@   ghost hresp any = nil
+//@   ghost serr error = nil
+//@   at aftercall Handler#1
+//@     ghost which = 1
+//@     ghost hresp = result0
+//@     ghost herr = result1
+//@   at aftercall Handler#2
+//@     ghost which = 2
+//@     ghost herr = result
+//@   at call SendMsg#1
+//@     assert[C01,C02] @reply which == 1 && herr == nil && arg0 == st && arg1 == hresp
+//@   at aftercall SendMsg#1
+//@     ghost serr = result
 //@   at call finishStream#1
 //@     assert[C13,C14] @finish arg0 == st
+//@     assert[C02] @outcome (which == 1 && herr != nil ==> arg1 == herr) && (which == 1 && herr == nil ==> arg1 == serr) && (which == 2 ==> arg1 == herr)
 //@   at go#1
 //@     assert[C14] @watcher count("go") == 0
 //@   locks st.writeMu, st.svr.mu, st.readMu
@@ -1282,6 +1298,11 @@ package grpctunnel
 //@     ghost err2 = result
 //@   at call newStream#1
 //@     assert[C16] @unary !arg2 && !arg3 && arg4 == methodName
+//@     assert[C02,C07,C17] @forward arg0 == c && arg1 == ctx && sameSlice(arg5, opts)
+//@   at call SendMsg#1
+//@     assert[C01] @request arg1 == req
+//@   at call RecvMsg#1
+//@     assert[C01] @response arg1 == resp
 //@   at call RecvMsg#2
 //@     assert[C16] @extra err1 == nil
 //@   at call cancel#1
@@ -1289,6 +1310,9 @@ package grpctunnel
 //@   ensures[C16] @success result == nil ==> count("call:RecvMsg") == 2 && err1 == nil && err2 != nil
 //@   ensures[C16] @nomessage count("call:RecvMsg") >= 1 && err1 != nil ==> result == err1
 //@   ensures[C16] @twomessages count("call:RecvMsg") == 2 && err2 == nil ==> isStatus(result, codes.Internal)
+//@   ensures[C02,C07] @laterstatus count("call:RecvMsg") == 2 && err2 != nil && result != nil ==> result == err2
+//@   ensures[C02]     @cleanend    count("call:RecvMsg") == 2 && err2 == io.EOF ==> result == nil
+//@   ensures[C02,C15] @trailersvisible count("call:RecvMsg") == 2 ==> count("call:Trailer") == 1
 //@   locks c.streamCreation, c.mu, str.writeMu, str.readMu, str.ch.mu, str.metaMu
 //@   assigns *
 
